@@ -102,13 +102,16 @@ def kw(call, name):
     return None
 
 
-def disc_arg_shape(call, fn):
+def disc_arg_shape(call, fn, fnode=None):
     """Shape of the argument of _disconnect_interfaces(...)."""
     if len(call.args) != 1 or call.keywords:
         raise ExtractionError("%s: _disconnect_interfaces is no longer called with one positional argument" % fn)
     a = call.args[0]
     # [Interface(...)]
     if isinstance(a, ast.List) and len(a.elts) == 1 and isinstance(a.elts[0], ast.Call) and callee_name(a.elts[0]) == "Interface":
+        return "ifsSingleton"
+    # [<local holding the handle>]
+    if isinstance(a, ast.List) and len(a.elts) == 1 and isinstance(a.elts[0], ast.Name) and a.elts[0].id not in ("self", "cls"):
         return "ifsSingleton"
     if isinstance(a, ast.Attribute) and a.attr == "interface_list":
         v = a.value
@@ -119,7 +122,13 @@ def disc_arg_shape(call, fn):
             if d:
                 return d
         # <local variable holding the looked-up service>.interface_list
-        if isinstance(v, ast.Name) and v.id in ("ns", "link"):
+        # (whatever the local is called)
+        if isinstance(v, ast.Name) and v.id not in ("self", "cls"):
+            # a temporary naming a handle constructed on the spot is that construction
+            for n in (ast.walk(fnode) if fnode is not None else []):
+                if isinstance(n, ast.Assign) and any(isinstance(t, ast.Name) and t.id == v.id for t in n.targets) \
+                        and isinstance(n.value, ast.Call) and callee_name(n.value) in ("NetworkService", "_get_ns_by_id"):
+                    return "ifsOfFreshHandle"
             return "ifsOfLookedUp"
         # NetworkService(name=.., node_id=.., topo=..).interface_list / self._get_ns_by_id(..).interface_list : a fresh handle
         if isinstance(v, ast.Call) and callee_name(v) in ("NetworkService", "_get_ns_by_id", "_get_ns_by_name"):
@@ -168,7 +177,7 @@ def steps_of(fn, name):
                 raise ExtractionError("%s: get_first_neighbor(rel=%s, node_label=%s) is not a known query" % (name, r, l))
             txt = "." + q
         elif code == "disc":
-            shapes.append(disc_arg_shape(c, name))
+            shapes.append(disc_arg_shape(c, name, fn))
             txt = ".disc"
         elif code in ("callRemoveNode", "callRemoveComponent"):
             # only calls on self / the parent handle count (not graph_model.remove_node of networkx)
@@ -214,6 +223,28 @@ def prune_loops(fn):
     return out
 
 
+def peer_count(di):
+    """How many ServicePort peers `_disconnect_interfaces` insists on: `if len(P) == k: disconnect else: raise`, or the guard
+    clauses `if not P: continue` / `if len(P) > k: raise` / disconnect, or `if len(P) != k: raise`; P any local holding the
+    result of get_peers(...)."""
+    names = {t.id for n in ast.walk(di) if isinstance(n, ast.Assign) and isinstance(n.value, ast.Call) and callee_name(n.value) == "get_peers"
+             for t in n.targets if isinstance(t, ast.Name)}
+    for n in ast.walk(di):
+        if not (isinstance(n, ast.If) and isinstance(n.test, ast.Compare) and len(n.test.ops) == 1):
+            continue
+        c = n.test
+        if not (isinstance(c.left, ast.Call) and callee_name(c.left) == "len" and c.left.args and isinstance(c.left.args[0], ast.Name)
+                and c.left.args[0].id in names and isinstance(c.comparators[0], ast.Constant) and isinstance(c.comparators[0].value, int)):
+            continue
+        op, k = type(c.ops[0]).__name__, c.comparators[0].value
+        raises = any(isinstance(b, ast.Raise) for b in n.body)
+        if op == "Eq" and not raises:
+            return k
+        if op in ("Gt", "NotEq") and raises:
+            return k
+    raise ExtractionError("_disconnect_interfaces: no `len(peers) == k` test (nor an equivalent guard clause)")
+
+
 def extract():
     trees = {}
     plans, shapes, spans = {}, {}, {}
@@ -252,11 +283,9 @@ def extract():
     loops = prune_loops(prune)
     # _disconnect_interfaces: len(peers) == 1
     di = find_func(find_class(ttree, "Topology"), "_disconnect_interfaces")
-    dt = len_tests(di)
-    if "peers" not in dt or dt["peers"][0] != "Eq":
-        raise ExtractionError("_disconnect_interfaces: no `len(peers) == k` test")
+    pc = peer_count(di)
     return {"plans": plans, "shapes": shapes, "spans": spans, "onlyChild": tests["children"][1],
-            "linkEnds": tests["connected_interfaces"][1], "dpDefault": dflt, "pruneLoops": loops, "peerCount": dt["peers"][1]}
+            "linkEnds": tests["connected_interfaces"][1], "dpDefault": dflt, "pruneLoops": loops, "peerCount": pc}
 
 
 HEADER_TYPES = '''/-- a tracked helper call; `gcp none` = `remove_cp_and_links` with the default `delete_parent` -/
@@ -299,6 +328,111 @@ def generate():
     return {"plans": {k: [t + ("@loop" if l else "") for t, l in v] for k, v in c["plans"].items()},
             "shapes": {k: v for k, v in c["shapes"].items() if v}, "cp": [c["onlyChild"], c["linkEnds"], c["dpDefault"]],
             "pruneLoops": c["pruneLoops"], "peerCount": c["peerCount"], "spans": c["spans"], "changed": changed}
+
+
+# --------------------------------------------------------------------------
+# behavioural probe: the removal entry points on every model of the component catalog
+
+
+def probe_catalog():
+    """[(entry point, model, ports, interfaces connected, clean)]: a node with one component of the model, every port of it
+    (and a sub-interface of a dedicated port) connected to a service that also holds a port of another node; after the call
+    the service holds that other port alone and one link is left.  Nothing here names a component type: what a model brings
+    with it is read off the component the library builds."""
+    import fim.user as fu
+    from fim.user.topology import ExperimentTopology
+    from fim.slivers.capacities_labels import Labels
+    rows = []
+    for m in fu.ComponentModelType:
+        for entry in ("remove_component", "remove_storage", "remove_node"):
+            t = ExperimentTopology()
+            nports = nconn = 0
+            try:
+                n1 = t.add_node(name="n1", site="RENC")
+                n2 = t.add_node(name="n2", site="RENC")
+                c = n1.add_component(name="x1", model_type=m)
+                far = n2.add_component(name="nic1", model_type=fu.ComponentModelType.SmartNIC_ConnectX_6).interface_list[0]
+                conn = list(c.interface_list)
+                nports = len(conn)
+                if conn and str(conn[0].type) == "DedicatedPort":
+                    conn.append(conn[0].add_child_interface(name="ch0", labels=Labels(vlan="100")))
+                nconn = len(conn)
+                t.add_network_service(name="s0", nstype=fu.ServiceType.L2Bridge, interfaces=conn + [far])
+                if entry == "remove_node":
+                    t.remove_node(name="n1")
+                else:
+                    getattr(t.nodes["n1"], entry)(name="x1")
+                left = sorted(i.name for i in t.network_services["s0"].interface_list)
+                # (the order of interface_list is not fixed: the far port is whichever came first)
+                clean = left == ["n2-" + far.name] and sorted(t.links.keys()) == ["n2-" + far.name + "-link"]
+            except Exception:
+                clean = False
+            finally:
+                try:
+                    t.graph_model.delete_graph()
+                except Exception:
+                    pass
+            rows.append((entry, m.name, nports, nconn, clean))
+    return rows
+
+
+def probe_service_types():
+    """[(entry point, service type, site came from, kept)]: a service of every ServiceType with a Site - given at creation
+    or written by Topology.validate() - whose only interface goes away (disconnected through the handle, or with its
+    component / node): the property dictionary of the surviving service is what it was."""
+    import fim.user as fu
+    from fim.user.topology import ExperimentTopology
+    rows = []
+    for st in fu.ServiceType:
+        for src in ("given", "validate"):
+            for entry in ("disconnect_interface", "remove_component", "remove_node"):
+                t = ExperimentTopology()
+                try:
+                    n1 = t.add_node(name="n1", site="RENC")
+                    i1 = n1.add_component(name="nic1", model_type=fu.ComponentModelType.SmartNIC_ConnectX_6).interface_list[0]
+                    kw = {"site": "RENC"} if src == "given" else {}
+                    s = t.add_network_service(name="s0", nstype=st, interfaces=[i1], **kw)
+                    if src == "validate":
+                        try:
+                            t.validate()
+                        except Exception:
+                            pass
+                    before = dict(t.graph_model.get_node_properties(node_id=s.node_id)[1])
+                    if entry == "disconnect_interface":
+                        s.disconnect_interface(i1)
+                    elif entry == "remove_component":
+                        n1.remove_component(name="nic1")
+                    else:
+                        t.remove_node(name="n1")
+                    kept = dict(t.graph_model.get_node_properties(node_id=s.node_id)[1]) == before
+                except Exception:
+                    kept = False
+                finally:
+                    try:
+                        t.graph_model.delete_graph()
+                    except Exception:
+                        pass
+                rows.append((entry, st.name, src, kept))
+    return rows
+
+
+def generate_probe():
+    rows = probe_catalog()
+    if not any(r[2] > 0 for r in rows):
+        raise ExtractionError("no model of the component catalog has ports")
+    srows = probe_service_types()
+    body = ("/-- behavioural probe of `Node.remove_component` / `Node.remove_storage` / `Topology.remove_node` on every model of the\n"
+            "component catalog: (entry point, model, ports of the component, interfaces connected to a service - the ports and a\n"
+            "sub-interface of a dedicated port -, after the call the service holds the port of the other node alone and one link is left) -/\n")
+    body += "def catalogRemoval : List (String × String × Nat × Nat × Bool) := [\n%s]\n" % ",\n".join(
+        '  ("%s", "%s", %d, %d, %s)' % (e, m, p, c, "true" if ok else "false") for e, m, p, c, ok in rows)
+    body += ("\n/-- behavioural probe on a service of every ServiceType that carries a Site (given at creation / written by\n"
+             "`Topology.validate()`) and loses its only interface: (entry point, service type, where the Site came from, the property\n"
+             "dictionary of the surviving service is unchanged) -/\n")
+    body += "def serviceKept : List (String × String × String × Bool) := [\n%s]\n" % ",\n".join(
+        '  ("%s", "%s", "%s", %s)' % (e, t, src, "true" if ok else "false") for e, t, src, ok in srows)
+    changed = emit("RemovalProbe", body)
+    return {"rows": len(rows), "service_rows": len(srows), "service_changed": [list(r[:3]) for r in srows if not r[3]], "with_ports": sorted({r[1] for r in rows if r[2] > 0}), "dirty": [list(r[:2]) for r in rows if not r[4]], "changed": changed}
 
 
 if __name__ == "__main__":
